@@ -482,7 +482,7 @@ func pending(b *Machine) bool { return len(b.nextHeaderSend) > 0 || len(b.nextBo
 //@   ensures csinv(&b.sendCipher)
 //@   ensures @C15,C16 implies(len(p) > math.MaxUint16, err == ErrMaxMessageLengthExceeded)
 //@   ensures @C16 implies(len(p) <= math.MaxUint16 && old(pending(b)), err == ErrMessageNotFlushed)
-//@   ensures @C15,C16 implies(err != nil, nseals() == old(nseals()) && b.sendCipher.nonce == old(b.sendCipher.nonce) &&
+//@   ensures @C15,C16,C08 implies(err != nil, nseals() == old(nseals()) && b.sendCipher.nonce == old(b.sendCipher.nonce) &&
 //@           sameslice(b.nextHeaderSend, old(b.nextHeaderSend)) && sameslice(b.nextBodySend, old(b.nextBodySend)))
 //@   ensures implies(len(p) <= math.MaxUint16 && !old(pending(b)), err == nil)
 //@   ensures @C16,C15 implies(err == nil, len(b.nextHeaderSend) == encHeaderSize && len(b.nextBodySend) == len(p)+macSize)
@@ -592,14 +592,14 @@ func nkinv(c *NoiseConn) bool {
 //@   at "return c.readBuf.Read(b)" assert @C15 implies(len(bufbytes(&c.readBuf)) > 0 && old(len(bufbytes(&c.readBuf))) == 0, nopens() == old(nopens())+2)
 
 //@ func (c *NoiseConn) Write(b []byte) (n int, err error)
-//@   props C15 C08 C07
+//@   props C15 C16 C08 C07
 //@   requires nkinv(c) && !pending(c.noise)
 //@   modifies wire(), cryptolog(), c.noise.nextHeaderSend, c.noise.nextBodySend, c.noise.sendCipher.nonce, c.noise.sendCipher.secretKey,
 //@            c.noise.sendCipher.salt, c.noise.sendCipher.cipher
 //@   loop 0 invariant nkinv(c) && bytesWritten >= 0 && bytesWritten <= len(b) && chunkSize >= 0 && chunkSize <= math.MaxUint16 &&
 //@          !pending(c.noise) && len(b) > math.MaxUint16
 //@   loop 0 invariant wirelen() >= old(wirelen()) && nseals() >= old(nseals())
-//@   at "return bytesWritten, err"#2 assert @C15 bytesWritten + payloadLeft(len(c.noise.nextBodySend)) == offsetin(chunk, b) + len(chunk)
+//@   at "return bytesWritten, err"#2 assert @C15,C16 bytesWritten + payloadLeft(len(c.noise.nextBodySend)) == offsetin(chunk, b) + len(chunk)
 //@   ensures nkinv(c)
 //@   ensures @C15 0 <= n && n <= len(b)
 //@   ensures @C15 implies(err == nil, n == len(b) && !pending(c.noise))
@@ -929,9 +929,10 @@ func suffixOf(a, b []byte) bool {
 //@   ensures fresh(m) && m.version == version && sameslice(m.Payload, payload)
 
 //@ func (m *MsgData) Serialize() (out []byte, err error)
-//@   props C19 C07
+//@   props C19 C15 C07
 //@   requires m != nil && len(m.Payload) < 1<<32
 //@   ensures err == nil
+//@   ensures @C15,C19 fresh(out)
 //@   ensures len(out) == 5 + len(m.Payload)
 //@   ensures out[0] == m.version && be32at1(out) == uint32(len(m.Payload))
 //@   ensures forall(0, len(m.Payload), func(i int) bool { return out[5+i] == m.Payload[i] })
